@@ -227,6 +227,40 @@ def check_case(ctx, tr, case):
                     ctx.violation('complete-residual', 'layer %d was not computed from the input minus the previous components' % li, case)
                     return
         ctx.count('complete_ensemble_layers_checked', len(layers))
+        # each member has its OWN noise process: from one layer to the next a member's noise is its previous noise minus that
+        # noise's first IMF (the noise-only sifts are traced as well: their inputs are the members' noise columns)
+        if lvl != 0 and nens >= 2 and len(layers) >= 2:
+            pool = [np.array(e['arr']['X']['data']).reshape(-1) for e in events if e['stage'] == 'sift' and e.get('parent') != 'swn']
+
+            def own(n, proportional=False):
+                best = None
+                for N in pool:
+                    if N.shape != n.shape or not np.any(N):
+                        continue
+                    c = float(np.dot(n, N) / np.dot(N, N)) if proportional else 1.0
+                    d = np.abs(n - c * N).max()
+                    if d <= 1e-9 * max(np.abs(n).max(), 1e-300) and (best is None or d < best[0]):
+                        best = (d, N)
+                return None if best is None else best[1]
+            by_job = [{m['job']: m['inputs'][0].reshape(-1) - L['X'].reshape(-1) for m in L['members'] if m['inputs']} for L in layers]
+            for li in range(1, len(layers)):
+                for j, n_now in by_job[li].items():
+                    n_prev = by_job[li - 1].get(j)
+                    if j is None or n_prev is None or not np.any(n_now) or not np.any(n_prev):
+                        continue
+                    N_prev = own(n_prev, proportional=(li == 1))
+                    if N_prev is None:
+                        ctx.count('noise_process_not_traceable')
+                        continue
+                    step = N_prev - S.sift(N_prev[:, None].copy(), max_imfs=1, **kw)[:, 0]
+                    ctx.count('noise_process_steps_checked')
+                    if np.abs(step - n_now).max() > 1e-9 * max(np.abs(n_now).max(), 1e-300):
+                        other = [jj for jj, nn in by_job[li - 1].items() if jj != j and nn is not None and np.any(nn) and own(nn, li == 1) is not None
+                                 and np.abs(N_prev - S.sift(own(nn, li == 1)[:, None].copy(), max_imfs=1, **kw)[:, 0] - n_now).max() <= 1e-9 * np.abs(n_now).max()]
+                        ctx.violation('noise-process-mixed', 'complete_ensemble_sift: the noise of member %s in layer %d is not its own previous noise minus that '
+                                      'noise\'s first IMF%s - the members\' noise processes are mixed (nprocesses=%d)'
+                                      % (j, li, ' (it had the first IMF of member %s\'s noise removed)' % other[0] if other else '', ek['nprocesses']), case)
+                        return
 
 
 def gen_case(rng):
@@ -260,7 +294,31 @@ def make_trace(ctx, tag):
     return tr, tdir
 
 
+def thread_cases(seed):
+    """Zero-noise ensembles (deterministic: they equal the classic sift) of different recordings, caps and modes computed in
+    different threads at the same time, with the default single worker and with two."""
+    from emd import sift as S
+    r = np.random.default_rng(seed)
+    n = int(gens.pick(r, [150, 400]))
+    t = np.arange(n)
+    calls = []
+    for k in range(4):
+        x = np.sin(2 * np.pi * t / float(r.uniform(7, 15))) + .5 * np.sin(2 * np.pi * t / float(r.uniform(35, 80))) + .3 * r.standard_normal(n)
+        cap, mode, npr = int(r.integers(2, 5)), gens.pick(r, ['single', 'flip']), int(gens.pick(r, [1, 1, 2]))
+        calls.append((lambda v, c, m, p: (lambda: S.ensemble_sift(v.copy(), nensembles=3, ensemble_noise=0.0, noise_mode=m, max_imfs=c, nprocesses=p)))(x, cap, mode, npr))
+    return calls, {'seed': int(seed), 'n': n}
+
+
+def thread_check(ctx, seed):
+    from ..monitors import thread_probe, in_process_pools
+    calls, tcase = thread_cases(seed)
+    with in_process_pools():
+        return thread_probe(ctx, 'ensemble_sift (zero noise, %d samples)' % tcase['n'], calls, 12, tcase)
+
+
 def run_shard(ctx):
+    if ctx.shard % 2 == 0:
+        thread_check(ctx, int(ctx.rng.integers(1 << 30)))
     rng = ctx.rng
     n = NCASES[ctx.tier] // ctx.nshards
     tr, tdir = make_trace(ctx, str(ctx.shard))
@@ -303,6 +361,11 @@ def finalize(agg, tier):
 
 
 def replay(ctx, case):
+    if case.get('kind') == 'threads':
+        for _ in range(5):
+            if not thread_check(ctx, case['seed']):
+                break
+        return
     tr, tdir = make_trace(ctx, 'replay')
     with tr:
         check_case(ctx, tr, case)
